@@ -48,6 +48,7 @@ def cases(draw):
         spec = dict(spec, doc_type='any')
         v = draw(gen.vspec_for(spec, 'any', hard=True))
     return {'model': spec, 'value': v, 'share': draw(st.integers(0, 5)) == 0,
+            'collide': draw(st.integers(0, 3)) == 0,
             'json': draw(st.sampled_from([None, None, 'plain', 'after_failure',
                                           'after_failure_elsewhere'])),
             'indent': draw(st.sampled_from([None, None, 2, 4]))}
@@ -108,6 +109,30 @@ def feature(v, m):
     return feats
 
 
+def collide_extras(value, m, _state=None):
+    """In every third object that takes extras (counted over the walk), add an extra
+    attribute named like its first parameter. -> number of objects changed."""
+    st_ = _state if _state is not None else {'seen': 0, 'done': 0}
+    if is_gen_obj(value):
+        c = m.by[type(value).__name__]
+        ex = getattr(value, '_yatiml_extra', None)
+        ps = [p['name'] for p in c.get('params', [])]
+        if c.get('extra') and isinstance(ex, dict) and ps and not c.get('attrs_hook'):
+            st_['seen'] += 1
+            if st_['seen'] % 3 == 1:
+                ex[ps[0]] = 'shadow'
+                st_['done'] += 1
+        for p in ps:
+            collide_extras(getattr(value, p, None), m, st_)
+    elif isinstance(value, list):
+        for x in value:
+            collide_extras(x, m, st_)
+    elif isinstance(value, dict):
+        for x in value.values():
+            collide_extras(x, m, st_)
+    return st_['done']
+
+
 def check(case, ctx):
     spec = case['model']
     m = models.build(spec)
@@ -127,6 +152,12 @@ def check(case, ctx):
         value, n_interned = proj.intern_leaves(value, m)
         if n_interned:
             ctx.count('date_or_path_leaf_object_used_twice')
+    collide = bool(case.get('collide')) and collide_extras(value, m)
+    if collide:
+        # an object built in Python whose extra attributes contain a key that is
+        # also a parameter name: which of the two the text shows is not specified,
+        # so only purity, determinism, well-formedness and tag-freedom are checked
+        ctx.count('extra_key_equal_to_a_parameter_name')
     try:
         want = proj.Projector(m).project(value)
     except proj.Ambiguous:
@@ -177,6 +208,8 @@ def check(case, ctx):
             ctx.finding('tagfree', 'explicit_tag:' + ('core' if ev.tag.startswith('tag:yaml.org') else 'custom'),
                         'the dump carries the explicit tag %s\n  text: %r\n  %s' % (ev.tag, text, desc()))
             return
+    if collide:
+        return
     # (c) content == projection, in order
     try:
         got = yaml.safe_load(text)
